@@ -112,10 +112,37 @@ var leakOps = map[string]leakOp{
 	}, true},
 }
 
+// again=1: the SAME observable value is subscribed a second time (what Retry / Repeat / Share / a second user do); the
+// first subscription is closed before, the second one is the measured one. State that an operator keeps per observable
+// value instead of per subscription (a sync.Once, a flag, a channel) shows here and nowhere in a single subscription.
+var leakReuse = map[string]func(ro.Observable[int]) ro.Observable[int]{
+	"ThrowOnContextCancel": func(s ro.Observable[int]) ro.Observable[int] { return ro.ThrowOnContextCancel[int]()(s) },
+	"Delay":                func(s ro.Observable[int]) ro.Observable[int] { return ro.Delay[int](2 * time.Millisecond)(s) },
+	"Timeout":              func(s ro.Observable[int]) ro.Observable[int] { return ro.Timeout[int](50 * time.Millisecond)(s) },
+	"ObserveOn":            func(s ro.Observable[int]) ro.Observable[int] { return ro.ObserveOn[int](2)(s) },
+	"BufferWithTime": func(s ro.Observable[int]) ro.Observable[int] {
+		return lenOf(ro.BufferWithTime[int](time.Millisecond)(s))
+	},
+	"BufferWithTimeOrCount": func(s ro.Observable[int]) ro.Observable[int] {
+		return lenOf(ro.BufferWithTimeOrCount[int](2, time.Millisecond)(s))
+	},
+	"SampleTime":   func(s ro.Observable[int]) ro.Observable[int] { return ro.SampleTime[int](time.Millisecond)(s) },
+	"ThrottleTime": func(s ro.Observable[int]) ro.Observable[int] { return ro.ThrottleTime[int](time.Millisecond)(s) },
+	"TakeUntilInterval": func(s ro.Observable[int]) ro.Observable[int] {
+		return ro.TakeUntil[int](ro.Interval(time.Hour))(s)
+	},
+}
+
 func runLeakCase(c *Case) string {
 	op, ok := leakOps[c.get("op", "?")]
 	if !ok {
 		return "res " + c.id + " unsupported"
+	}
+	again := c.get("again", "0") == "1"
+	if again {
+		if _, ok := leakReuse[c.get("op", "?")]; !ok || !op.src {
+			return "res " + c.id + " unsupported"
+		}
 	}
 	end := c.get("end", "unsub")
 	setRecorder(nil)
@@ -160,6 +187,26 @@ func runLeakCase(c *Case) string {
 	}
 	probe := &Probe{script: script}
 	var sub ro.Subscription
+	wantTeardowns := 1
+	if again {
+		obs := leakReuse[c.get("op", "?")](probe.Observable())
+		first := subAny(obs, &Recorder{})
+		for deadline := time.Now().Add(2 * time.Second); time.Now().Before(deadline); time.Sleep(200 * time.Microsecond) {
+			probe.mu.Lock()
+			n := probe.subs
+			probe.mu.Unlock()
+			if n > 0 {
+				break
+			}
+		}
+		first.Unsubscribe()
+		waitNoRo(300 * time.Millisecond)
+		probe.mu.Lock()
+		probe.subs = 0
+		probe.mu.Unlock()
+		wantTeardowns = 2
+		op = leakOp{func(_ ro.Observable[int], r *Recorder) ro.Subscription { return subAny(obs, r) }, true}
+	}
 	if op.src {
 		sub = op.sub(probe.Observable(), rec)
 		subMu.Lock()
@@ -211,8 +258,8 @@ func runLeakCase(c *Case) string {
 		leaked = 1
 	}
 	rel := 1
-	if op.src && probe.teardowns != 1 {
-		rel = probe.teardowns * 10 // 0 = never released, 20 = released twice, …
+	if op.src && probe.teardowns != wantTeardowns {
+		rel = (probe.teardowns - wantTeardowns + 1) * 10 // 0 = never released, 20 = released twice, …
 	}
 	closed := 0
 	for deadline := time.Now().Add(200 * time.Millisecond); time.Now().Before(deadline); time.Sleep(time.Millisecond) {
@@ -250,6 +297,12 @@ func genLeak(tier string, seed int64, only string) []*Case {
 		for _, e := range ends {
 			id++
 			cases = append(cases, newCase(id, "kind", "leak", "op", n, "end", e))
+		}
+		if _, ok := leakReuse[n]; ok {
+			for _, e := range []string{"unsub", "complete", "error"} {
+				id++
+				cases = append(cases, newCase(id, "kind", "leak", "op", n, "end", e, "again", "1"))
+			}
 		}
 	}
 	return cases
